@@ -47,6 +47,9 @@ profile. They exist because seeded changes of round 2 needed them to manifest (D
  p_varopts_on_builtin    var_options on the built-in list `modules` / `contexts`, directly or through `from:`
  p_empty_patch_list      a download with `patches: []`
  p_rule_text_newline  a rule whose `cmd:` (or description) was written as a YAML block scalar: it ends with a line break, or has one inside
+ p_uses_removal_marker / p_suffix_ext_rules / p_srcdir_dot / p_module_sets_builtin_var / p_context_prefixed_module / p_alias_spellings /
+ p_root_context_disables / p_escaped_early_var / p_dup_context_list / p_empty_task_map / p_download_not_build_dep / p_global_deps_chain
+                         round 7, see the doc string of each function
  p_subdirs_later_doc  a multi-document file listing a sub-directory from a document that is not the first, with different defaults
 """
 import copy, random
@@ -769,6 +772,208 @@ SHAPES = [("p_rule_rename_chain", rule_rename_chain), ("p_ifthen_feature_cond", 
           ("p_provided_name_is_module", provided_name_is_module), ("p_self_named_unique", self_named_unique), ("p_cli_comma_define", cli_comma_define), ("p_custom_build_no_out", custom_build_no_out), ("p_two_patched_downloads", two_patched_downloads), ("p_shadowed_provider", shadowed_provider),
           ("p_dup_listing", dup_listing), ("p_ctx_shuffle", ctx_shuffle), ("p_app_dup", app_dup), ("p_rule_field_variant", rule_field_variant),
           ("p_defaults_lists", defaults_lists), ("p_global_dep_order", global_dep_order), ("p_late_ifthen_leaf", late_ifthen_leaf)]
+
+
+
+# ---------------------------------------------------------------- round 7
+
+def _hard_names(m):
+    return [x for x in (m.get("depends") or []) + (m.get("selects") or []) if isinstance(x, str) and x and not x.startswith(("?", "-"))]
+
+
+def uses_removal_marker(p, rng):
+    """`uses: [-x]` on a module whose hard dependency x comes from its own list or from `defaults:` — a marker acts on the list it is in"""
+    cands = [(k, m, d) for k, m, path, d in _modules(p) if _hard_names(m)]
+    if not cands:
+        return
+    k, m, d = rng.choice(cands)
+    x = rng.choice(_hard_names(m))
+    m["uses"] = list(m.get("uses") or []) + ["-" + x]
+    if rng.random() < 0.4:
+        dm = d.setdefault("defaults", {}).setdefault("module" if k == "modules" else "app", {})
+        dm["depends"] = list(dm.get("depends") or []) + [x]
+        if rng.random() < 0.5:
+            for key in ("depends", "selects"):
+                if isinstance(m.get(key), list):
+                    m[key] = [e for e in m[key] if e != x]
+
+
+def suffix_ext_rules(p, rng):
+    """two compile rules whose input extensions are suffixes of one another (`c` / `cc`), and a module listing one right after the other"""
+    root = _root(p)
+    dflt = next((c for c in root.get("contexts") or [] if c.get("name") == "default"), None)
+    if dflt is None or not isinstance(dflt.get("rules"), list):
+        return
+    long_ext = rng.choice(["cc", "cc", "inc"])
+    if not any(r.get("in") == long_ext for r in dflt["rules"]):
+        dflt["rules"].append({"name": "CXX2" if long_ext == "cc" else "INC2", "in": long_ext, "out": "o",
+                              "cmd": "c++2 ${CFLAGS} -c ${in} -o ${out}"})
+    cands = [m for k, m, path, d in _modules(p) if any(isinstance(x, str) and x.endswith(".c") for x in m.get("sources") or [])]
+    if not cands:
+        return
+    m = rng.choice(cands)
+    i = max(j for j, x in enumerate(m["sources"]) if isinstance(x, str) and x.endswith(".c"))
+    m["sources"] = m["sources"][:i + 1] + [m["name"].replace("/", "_") + "_glue." + long_ext] + m["sources"][i + 1:]
+
+
+def srcdir_dot(p, rng):
+    """an explicit `srcdir: .` (`./`, empty) on a module defined in a sub-directory: relative to the project root, not 'unset'"""
+    cands = [m for k, m, path, d in _modules(p) if "/" in path and m.get("sources") and "srcdir" not in m and not m.get("download")]
+    if not cands:
+        return
+    rng.choice(cands)["srcdir"] = rng.choice([".", ".", "./", ""])
+
+
+def module_sets_builtin_var(p, rng):
+    """a module's `env.global` assigns `app` / `builder` (the context layer sets them, module globals are merged later)"""
+    cands = [m for k, m, path, d in _modules(p, ("modules",)) if not isinstance(m.get("env"), dict) or isinstance(m["env"].get("global", {}), dict)]
+    if not cands:
+        return
+    m = rng.choice(cands)
+    m.setdefault("env", {}).setdefault("global", {})[rng.choice(["app", "app", "builder"])] = rng.choice(["firmware", "prod-${SV}", "x"])
+
+
+def context_prefixed_module(p, rng):
+    """an ordinary module whose name starts with `context` (the synthetic ones are `context::<name>`), with a global env"""
+    root = _root(p)
+    name = rng.choice(["context_switch", "context_switch", "contexts/gui", "context-menu", "context", "contextual"])
+    root.setdefault("modules", []).append({"name": name, "sources": [name.replace("/", "_") + ".c"],
+                                           "env": {"global": {"CFLAGS": ["-DHAVE_CTXSW"], "SV": "ctxsw"}, "export": {"DEFS": ["-DCTX_EXPORT"]}}})
+    apps = [m for k, m, path, d in _modules(p, ("apps",))]
+    for a in rng.sample(apps, min(len(apps), rng.randint(1, 2))):
+        a["depends"] = list(a.get("depends") or []) + [name]
+
+
+def alias_spellings(p, rng):
+    """the old spellings serde still reads: `sharable` (rule), `buildable` (context), `disables` (module, = conflicts)"""
+    how = rng.choice(["sharable", "sharable", "sharable", "buildable", "disables"])
+    root = _root(p)
+    if how == "sharable":
+        rules = [r for c in (root.get("contexts") or []) + (root.get("builders") or []) for r in c.get("rules") or [] if r.get("out") and r.get("in")]
+        if rules:
+            r = rng.choice(rules)
+            v = r.pop("shareable", None)
+            r["sharable"] = False if v is None or rng.random() < 0.7 else v
+    elif how == "buildable":
+        ctxs = [c for c in (root.get("contexts") or []) if c.get("name") != "default" and "is_builder" not in c]
+        if ctxs:
+            c = rng.choice(ctxs)
+            c["buildable"] = True
+            a = p.setdefault("args", {})
+            if a.get("builders") is not None and rng.random() < 0.5:
+                a["builders"] = list(a["builders"]) + [c["name"]]
+    else:
+        mods = [m for k, m, path, d in _modules(p) if m.get("conflicts")]
+        if mods:
+            m = rng.choice(mods)
+            m["disables"] = m.pop("conflicts")
+
+
+def root_context_disables(p, rng):
+    """`disables:` on the explicitly declared root context `default`"""
+    root = _root(p)
+    dflt = next((c for c in root.get("contexts") or [] if c.get("name") == "default"), None)
+    names = sorted({m["name"] for k, m, path, d in _modules(p, ("modules",)) if m.get("name")})
+    if dflt is None or not names:
+        return
+    dflt["disables"] = list(dflt.get("disables") or []) + [rng.choice(names)]
+
+
+def escaped_early_var(p, rng):
+    """an ESCAPED reference to one of the load-time variables (`\\${relpath}`, `\\${root}`, `\\${srcdir}`) in an env value"""
+    v = rng.choice(["relpath", "relpath", "root", "srcdir"])
+    val = rng.choice(["-I\\${%s}/gen" % v, "pre \\${%s} post" % v, "\\${%s}" % v])
+    tgt = rng.choice(["module", "module", "context", "defaults"])
+    root = _root(p)
+    if tgt == "context":
+        cs = (root.get("contexts") or []) + (root.get("builders") or [])
+        if cs:
+            c = rng.choice(cs)
+            env = c.setdefault("env", {})
+            if isinstance(env, dict):
+                env["CFLAGS"] = (env["CFLAGS"] if isinstance(env.get("CFLAGS"), list) else []) + [val]
+        return
+    mods = [(k, m, d) for k, m, path, d in _modules(p)]
+    if not mods:
+        return
+    k, m, d = rng.choice(mods)
+    if tgt == "defaults":
+        m = d.setdefault("defaults", {}).setdefault("module" if k == "modules" else "app", {})
+    env = m.setdefault("env", {})
+    if not isinstance(env, dict):
+        return
+    layer = env.setdefault(rng.choice(["local", "export", "global"]), {})
+    if isinstance(layer, dict):
+        layer["CFLAGS"] = (layer["CFLAGS"] if isinstance(layer.get("CFLAGS"), list) else []) + [val]
+
+
+def dup_context_list(p, rng):
+    """a `context:` list naming one context twice — it means the module written once per listed context, i.e. twice in that one"""
+    root = _root(p)
+    cnames = [c["name"] for c in (root.get("contexts") or []) + (root.get("builders") or [])]
+    mods = [m for k, m, path, d in _modules(p) if m.get("name")]
+    if not mods or not cnames:
+        return
+    m = rng.choice(mods)
+    cur = m.get("context", "default")
+    cur = list(cur) if isinstance(cur, list) else [cur]
+    other = [c for c in cnames if c not in cur]
+    m["context"] = cur + ([rng.choice(other)] if other and rng.random() < 0.5 else []) + [cur[0]]
+
+
+def empty_task_map(p, rng):
+    """`defaults:` carrying tasks, and a module / app opting out with `tasks: {}` (its own map replaces the inherited one)"""
+    docs = [(path, d) for path, d in _all_docs(p) if d.get("apps")]
+    if not docs:
+        return
+    path, d = rng.choice(docs)
+    dm = d.setdefault("defaults", {}).setdefault("app", {})
+    dm["tasks"] = dict(dm.get("tasks") or {}, dflt_run={"cmd": ["echo dflt ${app}"], "build": rng.random() < 0.5})
+    apps = d["apps"]
+    a = rng.choice(apps)
+    a["tasks"] = {} if rng.random() < 0.7 else {"own_t": {"cmd": ["echo own"], "build": False}}
+
+
+def download_not_build_dep(p, rng):
+    """a downloaded module with a literal `is_build_dep: false`: downloaded files always make it a build dependency"""
+    mods = [m for k, m, path, d in _modules(p, ("modules",)) if m.get("download")]
+    if not mods:
+        root = _root(p)
+        name = "dlnb"
+        root.setdefault("modules", []).append({"name": name, "download": {"git": {"url": "https://example.invalid/dlnb.git", "commit": "abcd0123"}},
+                                               "sources": ["dlnb.c"], "is_build_dep": False})
+        apps = [m for k, m, path, d in _modules(p, ("apps",))]
+        for a in apps[:1]:
+            a["depends"] = list(a.get("depends") or []) + [name]
+        return
+    rng.choice(mods)["is_build_dep"] = False
+
+
+def global_deps_chain(p, rng):
+    """two global build dependencies where one uses the other (which is itself a build dependency)"""
+    root = _root(p)
+    first = {"name": "gsdk", "is_global_build_dep": True,
+             "download": {"git": {"url": "https://example.invalid/gsdk.git", "commit": "00ff00ff"}}} if rng.random() < 0.5 else \
+            {"name": "gsdk", "is_global_build_dep": True, "is_build_dep": True, "build": {"cmd": ["mksdk > ${out}"], "out": ["gsdk.h"]}}
+    second = {"name": "gconfig", "is_global_build_dep": True, "build": {"cmd": ["gen-config > ${out}"], "out": ["gconfig.h"]}}
+    second[rng.choice(["depends", "uses"])] = ["gsdk"]
+    if rng.random() < 0.4:
+        second = {"name": "gconfig", "is_global_build_dep": True, "sources": ["gstart.c"], "depends": ["gsdk"]}
+    mods = root.setdefault("modules", [])
+    if rng.random() < 0.5:
+        mods += [first, second]
+    else:
+        mods += [second, first]
+    apps = [m for k, m, path, d in _modules(p, ("apps",))]
+    for a in apps[:2]:
+        a["depends"] = list(a.get("depends") or []) + [rng.choice(["gconfig", "gsdk", "gconfig"])]
+
+
+SHAPES += [("p_uses_removal_marker", uses_removal_marker), ("p_suffix_ext_rules", suffix_ext_rules), ("p_srcdir_dot", srcdir_dot),
+           ("p_module_sets_builtin_var", module_sets_builtin_var), ("p_context_prefixed_module", context_prefixed_module),
+           ("p_alias_spellings", alias_spellings), ("p_root_context_disables", root_context_disables), ("p_escaped_early_var", escaped_early_var),
+           ("p_dup_context_list", dup_context_list), ("p_empty_task_map", empty_task_map), ("p_download_not_build_dep", download_not_build_dep),
+           ("p_global_deps_chain", global_deps_chain)]
 
 
 def apply(p, prof, seed, index):
